@@ -87,6 +87,17 @@ def _k2one(seed):
     return Driver("k2one", [np.round(rng.normal(0.0, 1.0, size=(9, 1)), 3)], W=1, K=2, beta=2.0, m=3)
 
 
+@driver("k2w1")
+def _k2w1(seed):
+    # a single stacked column (one sensor, window 1): np.cov returns a 0-d array here
+    return Driver("k2w1", [two_regime_series(8, 1, 3)], W=1, K=2, beta=1.0, m=2, biased=True)
+
+
+@driver("k2w1u")
+def _k2w1u(seed):
+    return Driver("k2w1u", [two_regime_series(8, 1, 7)], W=1, K=2, beta=1.0, m=2, biased=False)
+
+
 @driver("k2w3")
 def _k2w3(seed):
     return Driver("k2w3", [two_regime_series(10, 1, 13)], W=3, K=2, beta=1.5, m=2)
